@@ -380,6 +380,29 @@ func factorial(n int) int {
 	return f
 }
 
+// repeatBranch adds one of the branches once more, to another start node: the harness hands the SAME
+// *GraphBranch value to both AddBranch calls (one builder value used twice)
+func (b *base) repeatBranch(r *lib.Rng) {
+	var brs []Op
+	for _, o := range b.conns {
+		if o.K == "branch" {
+			brs = append(brs, o)
+		}
+	}
+	if len(brs) == 0 {
+		return
+	}
+	o := brs[r.Intn(len(brs))]
+	keys := []int{0}
+	for _, n := range b.nodes {
+		keys = append(keys, n.Key)
+	}
+	o.S = keys[r.Intn(len(keys))]
+	o.Ends = append([]int(nil), o.Ends...)
+	o.Choice = append([]int(nil), o.Choice...)
+	b.conns = append(b.conns, o)
+}
+
 func (b *base) withIDs() (nodes, conns []Op) {
 	id := 0
 	for _, o := range b.nodes {
@@ -444,6 +467,9 @@ func (engine) Generate(r *lib.Rng, tier string, i int) any {
 	}
 	concrete := r.Chance(1, 4)
 	b := genBase(r, r.Range(2, rmax), concrete, r.Chance(1, 2))
+	if r.Chance(1, 5) {
+		b.repeatBranch(r)
+	}
 	nodes, conns := b.withIDs()
 	c := &Case{In: b.in, Out: b.out, State: b.state, Salt: r.Intn(7), Src: "rand"}
 	all := append(append([]Op(nil), nodes...), conns...)
